@@ -269,7 +269,7 @@ V(T, m) ==
                                 val |-> EnumV("Some", << <<"__0", EnumV("Some", << <<"__0", e(0).val>> >>)>> >>)])
       [] c = "arr0" -> [lit |-> "[]", val |-> SeqV(<<>>)]
       [] c = "arr3" -> [lit |-> "[" \o lits3 \o "]", val |-> SeqV(vals3)]
-      [] c = "slice" -> IF sh = "empty" THEN [lit |-> "&[]", val |-> SeqV(<<>>)]
+      [] c = "slice" -> IF sh = "empty" THEN [lit |-> "(&[] as &[" \o n \o "])", val |-> SeqV(<<>>)]
                         ELSE [lit |-> "&*Box::leak(vec![" \o lits3 \o "].into_boxed_slice())", val |-> SeqV(vals3)]
       [] c = "vec"  -> (CASE sh = "empty" -> [lit |-> "Vec::new()", val |-> SeqV(<<>>)]
                          [] sh = "one"   -> [lit |-> "vec![" \o e(0).lit \o "]", val |-> SeqV(<<e(0).val>>)]
